@@ -129,7 +129,7 @@ Check rvole_ot_pipeline_correct :
     forall i, (i < rv_lb)%nat -> (nth i c 0 + nth i d 0) mod q = (nth i a 0 * b) mod q.
 Print Assumptions rvole_ot_pipeline_correct.
 
-(** Non-vacuity: the secp256k1 order is in the admitted range and the OT correlation is satisfiable for every beta, v_0, v_1 (the group-law premise is satisfiable by Lib/ZqGroup.v, see C05). *)
+(** Non-vacuity: the secp256k1 order is in the allowed range and the OT correlation is satisfiable for every beta, v_0, v_1 (the group-law premise is satisfiable by Lib/ZqGroup.v, see C05). *)
 Example rvole_hyps_satisfiable :
   0 < secp256k1_q <= 2 ^ 256 /\
   forall xi w (beta : nat -> bool) (v0 v1 : mat),
